@@ -69,18 +69,18 @@ type pendingLit struct {
 }
 
 type analyzer struct {
-	fset     *token.FileSet
-	pkg      *types.Package
-	info     *types.Info
-	skip     map[string]bool // base names of files whose functions are not analysed
-	facts    []Fact
+	fset      *token.FileSet
+	pkg       *types.Package
+	info      *types.Info
+	skip      map[string]bool // base names of files whose functions are not analysed
+	facts     []Fact
 	retFresh  map[*types.Func]bool
 	recvLeaks map[*types.Func]bool
 	allDecls  map[*types.Func]*ast.FuncDecl // including the files whose functions are not analysed
 	decls     map[*types.Func]*ast.FuncDecl
-	paramInv map[*types.Var][]inv
-	pending  []pendingLit
-	roots    map[string]bool
+	paramInv  map[*types.Var][]inv
+	pending   []pendingLit
+	roots     map[string]bool
 }
 
 func analyze(fset *token.FileSet, pkg *types.Package, info *types.Info, files []*ast.File, skip map[string]bool) []Fact {
@@ -558,8 +558,8 @@ type fctx struct {
 	fresh  map[*types.Var]token.Pos
 	alias  map[*types.Var]*types.Var // range variable over a []func parameter -> the parameter
 	scope  ast.Node                  // the FuncDecl / FuncLit whose locals are private
-	inGo   bool // runs (possibly) in another goroutine than the enclosing function
-	goLit  bool // this literal is a go target / escapes / is handed to another function
+	inGo   bool                      // runs (possibly) in another goroutine than the enclosing function
+	goLit  bool                      // this literal is a go target / escapes / is handed to another function
 	lits   *int
 	held   []Held
 	parent *fctx
